@@ -135,11 +135,13 @@ func (x *exec) tracef(format string, a ...interface{}) {
 func (x *exec) begin(budget, crashAt int) *Env {
 	e := &Env{Budget: budget, CrashAt: crashAt}
 	x.sim.mainEnv = e
+	mainOpSeq.Add(1)
 	return e
 }
 
 func (x *exec) end(e *Env) {
 	x.sim.mainEnv = nil
+	mainOpSeq.Add(1)
 	x.res.Stats.Steps += int64(e.Steps)
 	x.res.Stats.NavCalls += int64(e.NavCalls)
 	x.sim.hash = mix(x.sim.hash, e.hash, uint64(e.Steps))
